@@ -413,6 +413,8 @@ func runC06(r *run) {
 				Input: map[string]any{"value": "ObjectMarshaller{AddString(\"name\", s); AddInt(\"id\", n)}", "s": fmt.Sprintf("%q", evil)}, Expected: "name=" + strconv.Quote(evil), Actual: fmt.Sprintf("%q", w[0])})
 		}
 	}
+	// processes started with NO_COLOR set: a colored logger still closes every colour it opens
+	envProbe(r, false, "color", "NO_COLOR=1")
 	// in go-test mode an error value with a stack trace is followed by a dump of its origin inside the
 	// same payload: colour hygiene holds for that part as well (the twin binary, oracle only)
 	if exe := os.Getenv("VERIF_HARNESS"); exe != "" {
